@@ -681,4 +681,297 @@ theorem cleanBwd_drop_inv {r : RcPair} {aEx bEx bEx' : Id → Bool} {id : Id} (h
 
 end RcPair
 
+
+/-! ### a store linked with itself through one symbol -/
+
+structure SelfInv (m : SelfMap) (ex : Id → Bool) : Prop where
+  sym : ∀ a b, b ∈ (m.lookup a).getD [] ↔ a ∈ (m.lookup b).getD []
+  dom : ∀ a l, m.lookup a = some l → ex a = true
+
+theorem selfUnlink_pres {m : SelfMap} {ex : Id → Bool} {a b : Id} (hi : SelfInv m ex) (ha : ex a = true) :
+    SelfInv (selfUnlink m ex a b) ex ∧ ((selfUnlink m ex a b).lookup a).isSome = true := by
+  unfold selfUnlink
+  simp only
+  have hsym := hi.sym
+  have hdom := hi.dom
+  cases hb : ex b with
+  | false =>
+    simp only
+    have hbn : m.lookup b = none := by
+      cases hm : m.lookup b with
+      | none => rfl
+      | some l => have := hdom b l hm; simp [hb] at this
+    have hab : a ≠ b := by rintro rfl; simp [ha] at hb
+    refine ⟨⟨?_, ?_⟩, by simp⟩
+    · intro j b'
+      have h1 := hsym j b'
+      have h2 := hsym a b
+      simp only [Map.lookup_insert]
+      by_cases hj : j = a <;> by_cases hbb : b' = a <;> simp [hj, hbb] <;> grind
+    · intro j l; simp only [Map.lookup_insert]; split
+      · next h => subst h; intro _; exact ha
+      · exact hdom j l
+  | true =>
+    cases hm : (m.insert a (setErase b ((m.lookup a).getD []))).lookup b with
+    | none =>
+      simp only
+      have hab : a ≠ b := by rintro rfl; simp at hm
+      have hbn : m.lookup b = none := by simpa [Map.lookup_insert, Ne.symm hab] using hm
+      refine ⟨⟨?_, ?_⟩, by simp⟩
+      · intro j b'
+        have h1 := hsym j b'
+        have h2 := hsym a b
+        simp only [Map.lookup_insert]
+        by_cases hj : j = a <;> by_cases hbb : b' = a <;> simp [hj, hbb] <;> grind
+      · intro j l; simp only [Map.lookup_insert]; split
+        · next h => subst h; intro _; exact ha
+        · exact hdom j l
+    | some ms =>
+      simp only
+      refine ⟨⟨?_, ?_⟩, ?_⟩
+      · intro j b'
+        have h1 := hsym j b'
+        have h2 := hsym a b
+        have h3 := hsym j a
+        have h4 := hsym j b
+        have h5 := hsym b' a
+        have h6 := hsym b' b
+        simp only [Map.lookup_insert] at hm ⊢
+        by_cases hab : b = a
+        · subst hab
+          simp only [if_true, Option.some.injEq] at hm
+          subst hm
+          by_cases hj : j = b <;> by_cases hbb : b' = b <;> simp [hj, hbb] <;> grind
+        · simp only [hab, if_false] at hm
+          by_cases hj : j = a <;> by_cases hbb : b' = a <;> by_cases hj2 : j = b <;> by_cases hbb2 : b' = b <;>
+            simp [hj, hbb, hj2, hbb2, hm, hab, Ne.symm hab] <;> grind
+      · intro j l; simp only [Map.lookup_insert]; split
+        · next h => subst h; intro _; exact hb
+        · split
+          · next h => subst h; intro _; exact ha
+          · exact hdom j l
+      · simp only [Map.lookup_insert]; split <;> simp
+
+theorem selfLink_pres {m m' : SelfMap} {ex : Id → Bool} {a b : Id} (hi : SelfInv m ex) (ha : ex a = true)
+    (h : selfLink m ex a b = .ok m') : SelfInv m' ex ∧ ex b = true := by
+  unfold selfLink at h
+  simp only at h
+  have hsym := hi.sym
+  have hdom := hi.dom
+  cases hb : ex b with
+  | false => simp [hb] at h
+  | true =>
+    simp only [hb, if_true] at h
+    cases h
+    refine ⟨⟨?_, ?_⟩, rfl⟩
+    · intro j b'
+      have h1 := hsym j b'
+      have h2 := hsym a b
+      simp only [Map.lookup_insert]
+      by_cases hab : b = a
+      · subst hab
+        by_cases hj : j = b <;> by_cases hbb : b' = b <;> simp [hj, hbb] <;> grind
+      · by_cases hj : j = a <;> by_cases hbb : b' = a <;> by_cases hj2 : j = b <;> by_cases hbb2 : b' = b <;>
+          simp [hj, hbb, hj2, hbb2, hab, Ne.symm hab] <;> grind
+    · intro j l; simp only [Map.lookup_insert]; split
+      · next h => subst h; intro _; exact hb
+      · split
+        · next h => subst h; intro _; exact ha
+        · exact hdom j l
+
+
+
+theorem SelfInv.empty (ex : Id → Bool) : SelfInv ([] : SelfMap) ex := by constructor <;> simp
+
+theorem SelfInv.mono {m : SelfMap} {ex ex' : Id → Bool} (h : SelfInv m ex) (he : ∀ j, ex j = true → ex' j = true) :
+    SelfInv m ex' := ⟨h.sym, fun a l hl => he a (h.dom a l hl)⟩
+
+theorem selfTouch_pres {m : SelfMap} {ex : Id → Bool} {a : Id} (hi : SelfInv m ex) (ha : ex a = true) :
+    SelfInv (selfTouch m a) ex := by
+  unfold selfTouch
+  refine ⟨?_, ?_⟩
+  · intro j b
+    have := hi.sym j b
+    simp only [Map.lookup_insert]
+    by_cases hj : j = a <;> by_cases hb : b = a <;> simp [hj, hb] <;> grind
+  · intro j l; simp only [Map.lookup_insert]; split
+    · next h => subst h; intro _; exact ha
+    · exact hi.dom j l
+
+theorem selfUnlink_fold_pres {ex : Id → Bool} (a : Id) (ks : List Id) {m : SelfMap} (hi : SelfInv m ex) (ha : ex a = true) :
+    SelfInv (ks.foldl (fun m k => selfUnlink m ex a k) m) ex := by
+  induction ks generalizing m with
+  | nil => exact hi
+  | cons k rest ih => exact ih (selfUnlink_pres (b := k) hi ha).1
+
+theorem selfLinkAll_pres {ex : Id → Bool} (a : Id) (ks : List Id) {m m' : SelfMap} (hi : SelfInv m ex) (ha : ex a = true)
+    (h : selfLinkAll ex a ks m = .ok m') : SelfInv m' ex := by
+  induction ks generalizing m with
+  | nil => simp only [selfLinkAll] at h; cases h; exact hi
+  | cons k rest ih =>
+    simp only [selfLinkAll] at h
+    cases hk : selfLink m ex a k with
+    | error e => simp [hk] at h
+    | ok m1 => simp only [hk] at h; exact ih (selfLink_pres hi ha hk).1 h
+
+theorem selfAdd_pres {m m' : SelfMap} {ex : Id → Bool} {a : Id} {ks : List Id} (hi : SelfInv m ex)
+    (h : selfAdd m ex a ks = .ok m') : SelfInv m' ex := by
+  unfold selfAdd at h
+  cases ha : ex a with
+  | false => simp [ha] at h
+  | true => simp only [ha, Bool.not_true, Bool.false_eq_true, if_false] at h
+            exact selfLinkAll_pres a ks (selfTouch_pres hi ha) ha h
+
+theorem selfRemove_pres {m m' : SelfMap} {ex : Id → Bool} {a : Id} {ks : List Id} (hi : SelfInv m ex)
+    (h : selfRemove m ex a ks = .ok m') : SelfInv m' ex := by
+  unfold selfRemove at h
+  cases ha : ex a with
+  | false => simp [ha] at h
+  | true => simp only [ha, Bool.not_true, Bool.false_eq_true, if_false] at h
+            cases h; exact selfUnlink_fold_pres a ks (selfTouch_pres hi ha) ha
+
+theorem selfSet_pres {m m' : SelfMap} {ex : Id → Bool} {a : Id} {req : List Id} (hi : SelfInv m ex)
+    (h : selfSet m ex a req = .ok m') : SelfInv m' ex := by
+  unfold selfSet at h
+  cases ha : ex a with
+  | false => simp [ha] at h
+  | true => simp only [ha, Bool.not_true, Bool.false_eq_true, if_false] at h
+            exact selfLinkAll_pres a _ (selfUnlink_fold_pres a _ (selfTouch_pres hi ha) ha) ha h
+
+/-- effect of the clean loop: the id leaves the buckets of the listed keys; bucket existence is kept -/
+theorem selfClean_fold (ex : Id → Bool) (id : Id) (ks : List Id) (m : SelfMap)
+    (hdom : ∀ b l, m.lookup b = some l → ex b = true) :
+    let m' := ks.foldl (selfCleanStep ex id) m
+    (∀ b j, j ∈ (m'.lookup b).getD [] ↔ (j ∈ (m.lookup b).getD [] ∧ ¬ (j = id ∧ b ∈ ks))) ∧
+    (∀ b, (m'.lookup b).isSome = (m.lookup b).isSome) := by
+  induction ks generalizing m with
+  | nil => simp
+  | cons k rest ih =>
+    simp only [List.foldl_cons]
+    have hstep : (∀ b j, j ∈ ((selfCleanStep ex id m k).lookup b).getD [] ↔ (j ∈ (m.lookup b).getD [] ∧ ¬ (j = id ∧ b = k))) ∧
+        (∀ b, ((selfCleanStep ex id m k).lookup b).isSome = (m.lookup b).isSome) := by
+      unfold selfCleanStep
+      cases hg : m.lookup k with
+      | none =>
+        have hnone : ∀ b j, j ∈ (m.lookup b).getD [] ↔ (j ∈ (m.lookup b).getD [] ∧ ¬ (j = id ∧ b = k)) := by
+          intro b j
+          by_cases hb : b = k
+          · subst hb; simp [hg]
+          · simp [hb]
+        cases ex k <;> exact ⟨hnone, fun _ => rfl⟩
+      | some ms =>
+        have hex := hdom k ms hg
+        simp only [hex]
+        refine ⟨?_, ?_⟩
+        · intro b j
+          simp only [Map.lookup_insert]
+          by_cases hbk : b = k
+          · subst hbk; simp [hg, and_comm]
+          · simp [hbk]
+        · intro b; simp only [Map.lookup_insert]; split
+          · next hbk => subst hbk; simp [hg]
+          · rfl
+    obtain ⟨s2, s3⟩ := hstep
+    have hdom' : ∀ b l, (selfCleanStep ex id m k).lookup b = some l → ex b = true := by
+      intro b l hl
+      have := s3 b
+      rw [hl] at this
+      cases hh : m.lookup b with
+      | none => simp [hh] at this
+      | some l' => exact hdom b l' hh
+    obtain ⟨t2, t3⟩ := ih (selfCleanStep ex id m k) hdom'
+    refine ⟨?_, ?_⟩
+    · intro b j; rw [t2, s2]; simp only [List.mem_cons]; grind
+    · intro b; rw [t3, s3]
+
+theorem selfClean_drop_inv {m : SelfMap} {ex ex' : Id → Bool} {id : Id} (hi : SelfInv m ex)
+    (he : ∀ j, ex j = true → j ≠ id → ex' j = true) : SelfInv ((selfClean m ex id).erase id) ex' := by
+  obtain ⟨c2, c3⟩ := selfClean_fold ex id ((m.lookup id).getD []) m hi.dom
+  unfold selfClean
+  refine ⟨?_, ?_⟩
+  · intro a b
+    have hs := hi.sym a b
+    have hs2 := hi.sym id b
+    have hs3 := hi.sym id a
+    simp only [Map.lookup_erase]
+    by_cases ha : a = id <;> by_cases hb : b = id
+    · simp [ha, hb]
+    · subst ha
+      simp only [if_true, Option.getD_none, List.not_mem_nil, hb, if_false, false_iff]
+      rw [c2]; grind
+    · subst hb
+      simp only [if_true, Option.getD_none, List.not_mem_nil, ha, if_false, iff_false]
+      rw [c2]; grind
+    · simp only [ha, hb, if_false]
+      rw [c2, c2]; grind
+  · intro a l; simp only [Map.lookup_erase]; split
+    · simp
+    · next hne =>
+      intro hl
+      have := c3 a; rw [hl] at this
+      cases hh : m.lookup a with
+      | none => simp [hh] at this
+      | some l' => exact he a (hi.dom a l' hh) hne
+
+/-- members of a bucket are existing entities -/
+theorem SelfInv.member {m : SelfMap} {ex : Id → Bool} (h : SelfInv m ex) {a b : Id} {l : List Id}
+    (hl : m.lookup a = some l) (hb : b ∈ l) : ex b = true := by
+  have h1 := (h.sym a b).1 (by simp [hl, hb])
+  cases hm : m.lookup b with
+  | none => simp [hm] at h1
+  | some ms => exact h.dom b ms hm
+
+
+
+/-! ### a store linked with itself through two symbols -/
+
+/-- deleting an entity of a collection that links a store with itself through TWO symbols: both of
+    its buckets are cleaned (`EntityDeleted` of either collection) and dropped -/
+theorem LinkPair.cleanBoth_drop_inv {p : LinkPair} {ex ex' : Id → Bool} {id : Id} (hi : LinkInv p ex ex)
+    (he : ∀ j, ex j = true → j ≠ id → ex' j = true) :
+    LinkInv { fwd := ((p.cleanFwd ex id).cleanBwd ex id).fwd.erase id,
+              bwd := ((p.cleanFwd ex id).cleanBwd ex id).bwd.erase id } ex' ex' := by
+  obtain ⟨c1, c2, c3⟩ := LinkPair.cleanFwd_fold ex id ((p.fwd.lookup id).getD []) p hi.bwdDom
+  have hp1 : p.cleanFwd ex id = ((p.fwd.lookup id).getD []).foldl (LinkPair.cleanFwdStep ex id) p := rfl
+  rw [← hp1] at c1 c2 c3
+  have hdom1 : ∀ j l, (p.cleanFwd ex id).fwd.lookup j = some l → ex j = true := by
+    intro j l; rw [c1]; exact hi.fwdDom j l
+  obtain ⟨d1, d2, d3⟩ := LinkPair.cleanBwd_fold ex id (((p.cleanFwd ex id).bwd.lookup id).getD []) (p.cleanFwd ex id) hdom1
+  have hp2 : (p.cleanFwd ex id).cleanBwd ex id =
+      (((p.cleanFwd ex id).bwd.lookup id).getD []).foldl (LinkPair.cleanBwdStep ex id) (p.cleanFwd ex id) := rfl
+  rw [← hp2] at d1 d2 d3
+  refine ⟨?_, ?_, ?_⟩
+  · intro j b
+    have hs := hi.sym j b
+    have hs1 := hi.sym id b
+    have hs2 := hi.sym j id
+    have hs3 := hi.sym id id
+    simp only [Map.lookup_erase]
+    by_cases hj : j = id <;> by_cases hb : b = id
+    · simp [hj, hb]
+    · subst hj
+      simp only [if_true, Option.getD_none, List.not_mem_nil, hb, if_false, false_iff]
+      rw [d1, c2]; grind
+    · subst hb
+      simp only [if_true, Option.getD_none, List.not_mem_nil, hj, if_false, iff_false]
+      rw [d2, c1, c2]; grind
+    · simp only [hj, hb, if_false]
+      rw [d2, d1, c2, c1]; grind
+  · intro b l; simp only [Map.lookup_erase]; split
+    · simp
+    · next hne =>
+      rw [d1]; intro hl
+      have := c3 b; rw [hl] at this
+      cases hh : p.bwd.lookup b with
+      | none => simp [hh] at this
+      | some l' => exact he b (hi.bwdDom b l' hh) hne
+  · intro j l; simp only [Map.lookup_erase]; split
+    · simp
+    · next hne =>
+      intro hl
+      have := d3 j; rw [hl, c1] at this
+      cases hh : p.fwd.lookup j with
+      | none => simp [hh] at this
+      | some l' => exact he j (hi.fwdDom j l' hh) hne
+
 end StorageModel.C06
